@@ -189,7 +189,10 @@ Section Pipeline.
         specialize (Hrow i Hi). unfold batch_row, engine_row in Hrow.
         apply (f_equal (map fst)) in Hrow. rewrite !map_map in Hrow. cbn [fst] in Hrow.
         unfold row_outputs_of. rewrite map_map. exact Hrow. }
-      unfold table. destruct (x_inputs x), (x_outputs x); cbn [orb]; rewrite ?Hins, ?Houts; cbn [bind hstack_values].
+      assert (Hk : length input_values = length rows) by (unfold rows, used_rows; rewrite map_length; reflexivity).
+      assert (Hb : broadcast_outputs (length input_values) (Mat (map (@row_outputs_of T) es)) = Ok (Mat (map (@row_outputs_of T) es))).
+      { unfold broadcast_outputs. rewrite map_length, Hl, Hk, Nat.eqb_refl. reflexivity. }
+      unfold table. destruct (x_inputs x), (x_outputs x); cbn [orb]; rewrite ?Hins, ?Houts; cbn [bind]; rewrite ?Hb; cbn [bind hstack_values].
       + rewrite !map_length, Hl, Nat.eqb_refl. reflexivity.
       + cbn [atleast_2d rows_of]. rewrite combine_app_fst by (rewrite !map_length; lia). reflexivity.
       + rewrite combine_app_snd by (rewrite !map_length; lia). reflexivity.
